@@ -76,14 +76,14 @@ Proof.
     apply orb_false_iff in Hn as [Hb Hr]. rewrite Hb, (IH Hr). reflexivity. }
   destruct st as [| |t|o|]; try contradiction.
   - rewrite Hsmall by reflexivity. eexists. split; [reflexivity|]. constructor; [|constructor].
-    unfold dgram_ok. split; [unfold SEQ_MOD; lia|]. split; [|exact Hclose].
+    unfold dgram_ok. split; [reflexivity|]. split; [unfold SEQ_MOD; lia|]. split; [|exact Hclose].
     pose proof (Hsmall (Some TOKEN_NONE) eq_refl). lia.
   - rewrite Hsmall by exact Hst. eexists. split; [reflexivity|]. constructor; [|constructor].
-    unfold dgram_ok. split; [unfold SEQ_MOD; lia|]. split; [|exact Hclose].
+    unfold dgram_ok. split; [exact Hst|]. split; [unfold SEQ_MOD; lia|]. split; [|exact Hclose].
     pose proof (Hsmall t Hst). lia.
   - destruct Hst as [Hon Ht]. rewrite Hsmall by exact Ht. eexists. split; [reflexivity|].
     constructor; [|constructor]. unfold dgram_ok. destruct Hon as [_ [_ [_ [_ [_ [Ha _]]]]]].
-    split; [exact Ha|]. split; [|exact Hclose]. pose proof (Hsmall _ Ht). lia.
+    split; [exact Ht|]. split; [exact Ha|]. split; [|exact Hclose]. pose proof (Hsmall _ Ht). lia.
 Qed.
 
 Lemma tick_action_ok c e :
